@@ -382,6 +382,7 @@ func (g *vfGen) genC03() {
 		g.emit(vfOp("xwalk", sc, in, []uint32{0, 3072, 64}[g.intn(3)]))
 	}
 	g.genResExt()
+	g.genTrace()
 	g.genLimFlip()
 }
 
